@@ -101,6 +101,9 @@ pub struct Pair {
     pub log_snap: bool,
     pub log_probe: bool,
     pub calls: u64,
+    pub tamper: u64,      // per cent of genuine data frames followed by a disagreeing copy of one of their fragments
+    pub tamper_rng: u64,
+    pub tampered: u64,
 }
 
 fn snap_json(s: &uv::VerifSnapshot, cfg: &PairCfg, e: usize) -> Value {
@@ -166,6 +169,9 @@ impl Pair {
             log_snap: false,
             log_probe: true,
             calls: 0,
+            tamper: 0,
+            tamper_rng: 0x1234567,
+            tampered: 0,
         }
     }
 
@@ -566,9 +572,52 @@ impl Pair {
         due.sort_by_key(|f| (f.due, f.seq));
         let n = due.len();
         for f in due.into_iter() {
+            let pre = self.ep[e].hc.as_ref().map(|h| h.verif_snapshot().rf_base);
             self.handle_bytes(tr, e, &f.bytes, json!({"idx": f.idx}));
+            if self.tamper > 0 && !self.dead {
+                // only when the genuine frame itself was accepted by the frame window (it came first)
+                let post = self.ep[e].hc.as_ref().map(|h| h.verif_snapshot().rf_base);
+                if let (Some(a), Some(b), Some(uv::Frame::DataFrame(df))) = (pre, post, uv::Frame::read(&f.bytes)) {
+                    if a != b && b == df.sequence_id.wrapping_add(1) {
+                        self.tamper_after(tr, e, &f.bytes);
+                    }
+                }
+            }
         }
         n
+    }
+
+    /// C04: after a genuine data frame has been handed over, hand over a copy of one of its fragments that
+    /// disagrees with it (different payload length or contents, or different header fields), carried by a
+    /// frame id the receiver still accepts.  The genuine fragment came first, so nothing may change.
+    fn tamper_after(&mut self, tr: &mut Trace, e: usize, bytes: &[u8]) {
+        let mut r = Rng::new(self.tamper_rng);
+        self.tamper_rng = r.next();
+        if !r.chance(self.tamper, 100) {
+            return;
+        }
+        if let Some(uv::Frame::DataFrame(f)) = uv::Frame::read(bytes) {
+            if f.datagrams.is_empty() {
+                return;
+            }
+            let mut d = r.pick(&f.datagrams).clone();
+            let is_last = d.fragment_id == d.fragment_id_last;
+            match r.below(5) {
+                0 if is_last => { let n = r.below(d.data.len() as u64 + 1) as usize; d.data = d.data[..n].to_vec().into_boxed_slice(); }            // shorter copy of the last fragment
+                1 if is_last && d.data.len() < MAX_FRAGMENT_SIZE => { let mut v = d.data.to_vec(); v.extend(std::iter::repeat(0x5A).take(r.range(1, (MAX_FRAGMENT_SIZE - v.len()) as u64) as usize)); d.data = v.into_boxed_slice(); } // longer copy
+                2 => { let mut v = d.data.to_vec(); for b in v.iter_mut() { *b ^= 0xFF; } d.data = v.into_boxed_slice(); }                              // same shape, other contents
+                3 if d.fragment_id_last > 0 => { d.fragment_id_last += 1; if d.fragment_id < d.fragment_id_last && d.data.len() != MAX_FRAGMENT_SIZE { return; } }
+                _ => { d.window_parent_lead = d.window_parent_lead.wrapping_add(1).max(1); if d.channel_parent_lead != 0 && d.channel_parent_lead < d.window_parent_lead { d.channel_parent_lead = d.window_parent_lead; } }
+            }
+            let s = self.ep[e].hc.as_ref().unwrap().verif_snapshot();
+            let forged = uv::Frame::DataFrame(uv::DataFrame { sequence_id: s.rf_base, nonce: r.chance(1, 2), datagrams: vec![d] });
+            if let Ok(b) = std::panic::catch_unwind(std::panic::AssertUnwindSafe(|| forged.write())) {
+                if b.len() <= MAX_FRAME_SIZE {
+                    self.tampered += 1;
+                    self.handle_bytes(tr, e, &b, json!({"forged": "disagreeing-fragment"}));
+                }
+            }
+        }
     }
 
     pub fn in_flight(&self, dir: usize) -> usize {
